@@ -25,6 +25,11 @@ def build_cases(rng, tier):
         elif r.chance(30):
             c['extra_options'] = ["array"]
         c['cc_extra'] = r.pick([[], [], ["-DYY_BUF_SIZE=16"], ["-DYY_BUF_SIZE=64"], ["-DYY_BUF_SIZE=7"]]) if be in ('nr', 'r', 'cxx') else []
+        if be == 'c99':
+            # the c99 back end takes its buffer size from an option: small buffers put tokens (and text kept by yymore) across refills
+            bs = r.pick([None, 16, 64, 7, 16])
+            if bs:
+                c['extra_options'] = list(c.get('extra_options') or []) + ["bufsize=%d" % bs]
         if i % 7 == 3:
             # in-memory sources (yy_scan_bytes; further ones supplied the same way by yywrap), %pointer, actions with yymore():
             # the end of such a buffer is not followed by a read
@@ -32,6 +37,16 @@ def build_cases(rng, tier):
             c = streamprog.gen_stream_case(r, "e%d" % i, {'edit', 'more'} if i % 2 else {'edit', 'more', 'wrap'}, backend=be,
                                            flex_opts=r.pick([[], ["-Cf"], ["-Ce"], ["-B"], ["-I"]]))
             c['cc_extra'] = []
+        if i % 7 == 5:
+            # %pointer + yymore() with buffers so small that the text kept by yymore lies across refills (c99: %option bufsize)
+            be = r.pick(['c99', 'c99', 'nr', 'r', 'cxx'])
+            c = streamprog.gen_stream_case(r, "e%d" % i, {'edit', 'more'}, backend=be, flex_opts=r.pick([[], ["-Ce"], ["-B"], ["-I"], ["-Cm"]]))
+            bs = r.pick([7, 16, 16, 33])
+            if be == 'c99':
+                c['extra_options'] = ["bufsize=%d" % bs]
+                c['cc_extra'] = []
+            else:
+                c['cc_extra'] = ["-DYY_BUF_SIZE=%d" % bs]
         if c['backend'] in ('nr', 'r') and (i % 7 == 3 or r.chance(15)) and not c.get('runs'):
             c['runs'] = [{'sessions': [srcs], 'mode': 'b'} for srcs in c['sources']]
         cases.append(c)
